@@ -426,7 +426,7 @@ pub fn get_u32(v: &[u8], n: usize) -> u32 {
     let p2 = v[n + 1] as u32;
     let p3 = v[n + 2] as u32;
     let p4 = v[n + 3] as u32;
-    p1 | (p2 << 8) | (p3 << 16) | (p4 << 24)
+    (p1 << 24) | (p2 << 16) | (p3 << 8) | p4
 }
 
 pub fn set_u8(vec: &mut [u8], n: usize, v: u8) {
